@@ -356,4 +356,25 @@ def traceOf (s : State) : List Ev → List String
 def enabledSteps (s : State) (pids : List Nat) : List Nat :=
   pids.filter (fun p => (s.procs p).pc.running)
 
+/-! ### several source paths (several cache keys)
+
+  `CacheStore._get_filename` maps the path of a dependency GIR, as it was given, to the NAME of its
+  cache entry (sha1 of the path).  A `Family` holds one single-key state per entry name: the source
+  file that name stands for, the entry of that name, the operations (store / load, source
+  modifications) addressed to it.  An event is addressed to a path and acts on the state of the
+  path's entry name.  (The version check / purge is an operation on the directory, not on a path:
+  it is covered by the single-key theorems for each name separately and is not an event of a family.) -/
+
+abbrev Family := Nat → State
+
+def kstep {Path : Type} (name : Path → Nat) (K : Family) (e : Path × Ev) : Family :=
+  upd K (name e.1) (step (K (name e.1)) e.2)
+
+def krun {Path : Type} (name : Path → Nat) (K : Family) (evs : List (Path × Ev)) : Family :=
+  evs.foldl (kstep name) K
+
+/-- the events of a history that are addressed to path `k` -/
+def eventsOf {Path : Type} [DecidableEq Path] (k : Path) (evs : List (Path × Ev)) : List Ev :=
+  (evs.filter (fun e => decide (e.1 = k))).map (·.2)
+
 end GIVerif.Cache
